@@ -1,4 +1,5 @@
 import Cello.Threads
+import Cello.ThreadsSync
 import CelloGen.Exn
 import CelloGen.Thr
 import Driver.Common
@@ -26,12 +27,22 @@ def cfg : Cfg := { gcFirst := CelloGen.Thr.teardownGcFirst, consume := CelloGen.
                    foreignMark := CelloGen.Thr.threadMarkUnguarded,
                    joinIgnoresDeadlk := joinIgnoresDeadlkOf CelloGen.Thr.joinErr }
 
+/-- the translation tables of the synchronisation wrappers as extracted from the source (extension round): every `lock`,
+    `trylock`, `unlock`, `join` event is also executed as flag test + primitive + table (`syncStep`) and compared with `step` -/
+def tabs : SyncTabs :=
+  { lock := CelloGen.Thr.lockErr, trylock := CelloGen.Thr.trylockErr, tryDefault := CelloGen.Thr.trylockDefault,
+    unlock := CelloGen.Thr.unlockErr, join := CelloGen.Thr.joinErr }
+
+def bump (l : List (String × Nat)) (k : String) : List (String × Nat) :=
+  if k.isEmpty then l else if l.any (·.1 == k) then l.map (fun e => if e.1 == k then (k, e.2 + 1) else e) else l ++ [(k, 1)]
+
 def parseErrno : String → Option Errno
   | "0" => some .zero | "EINVAL" => some .einval | "EDEADLK" => some .edeadlk | "EBUSY" => some .ebusy
   | "EPERM" => some .eperm | "ESRCH" => some .esrch | "EAGAIN" => some .eagain | _ => none
 
 def parsePFn : String → Option PFn
-  | "lock" => some .lock | "trylock" => some .trylock | "unlock" => some .unlock | "join" => some .join | _ => none
+  | "lock" => some .lock | "trylock" => some .trylock | "unlock" => some .unlock | "join" => some .join
+  | "create" => some .create | "stop" => some .stop | _ => none
 
 def nats (ws : List String) : Option (List Nat) := ws.mapM (·.toNat?)
 
@@ -130,6 +141,8 @@ def main (args : List String) : IO Unit := do
   let mut nNotIso := 0
   let mut nNotIsoN := 0
   let mut nArgUnsafe := 0
+  let mut nLayerDiff := 0
+  let mut branches : List (String × Nat) := []
   for l in lines do
     if Driver.isSkippable l then continue
     if l.startsWith "M " then
@@ -158,6 +171,11 @@ def main (args : List String) : IO Unit := do
           if !isolatedEvN cfg g e then nNotIsoN := nNotIsoN + 1
           if !argSafeEv g e then nArgUnsafe := nArgUnsafe + 1
           let (g', o') := step cfg g e
+          match syncStep tabs g e with
+          | some r =>
+            branches := bump branches (syncBranch g e)
+            if r.2 != o' then nLayerDiff := nLayerDiff + 1
+          | none => pure ()
           g := g'
           o := o'
           if first.isNone then first := some o'
@@ -179,4 +197,5 @@ def main (args : List String) : IO Unit := do
       if inside t m trl > 1 || inside t m trl < 0 then exclOK := false
   -- races: steps at which a collection walks the thread-local table of a live thread (a data race in C);
   -- not-isolated: steps outside the hypothesis `Isolated` of C13_noninterference
-  IO.println s!"S events={idx} local={nLocal} sync={nSync} not-executed={nBlocked} noUB={noUB trl} exclusion={exclOK} races={nRace} not-isolated={nNotIso} walk-decides={nNotIsoN} arg-unsafe={nArgUnsafe} managed={g.wraps.length}"
+  IO.println s!"S events={idx} local={nLocal} sync={nSync} not-executed={nBlocked} noUB={noUB trl} exclusion={exclOK} races={nRace} not-isolated={nNotIso} walk-decides={nNotIsoN} arg-unsafe={nArgUnsafe} managed={g.wraps.length} sync-layer-diff={nLayerDiff}"
+  IO.println s!"I sync-branches {" ".intercalate (branches.map (fun e => s!"{e.1}={e.2}"))}"
